@@ -240,6 +240,10 @@ dense = st.lists(st.integers(0, 3), min_size=10, max_size=160).map(
 # pseudo-random walks: the seed is the generated input (r:<seed>,<stickiness in percent>)
 walk = st.tuples(st.integers(0, 2 ** 31 - 1), st.sampled_from([0, 30, 50, 70, 85, 95])).map(
     lambda t: f'r:{t[0]},{t[1]}')
+# the same walks with lock-granularity scheduling points (every mutex acquisition of the code under
+# test is a decision, a held mutex blocks visibly): capital letter
+walk_locks = st.tuples(st.integers(0, 2 ** 31 - 1), st.sampled_from([0, 30, 50, 70, 85, 95])).map(
+    lambda t: f'R:{t[0]},{t[1]}')
 sparse = st.lists(st.tuples(st.integers(0, 120), st.integers(0, 4)), max_size=8).map(
     lambda l: 's:' + ','.join(f'{i}={a}' for i, a in sorted(dict(l).items())))
 perturb = st.lists(st.sampled_from([0, 0, 1, 1, 2, 5, 20, 40]), min_size=4, max_size=40).map(
@@ -286,8 +290,9 @@ def explicit_schedule(rig, schedule, programs, fail):
     """A failing pseudo-random walk as an explicit sparse schedule (the deviations from the default
     run it took), greedily reduced while the same failure persists.  Falls back to the walk itself
     (which is deterministic as well) when the driver could not report its decisions."""
-    if not schedule.startswith('r:'):
+    if schedule[:2] not in ('r:', 'R:'):
         return schedule
+    kind = 's:' if schedule[0] == 'r' else 'S:'
     _rc, trace, _err = rig.run_sched(schedule, programs)
     dec = [t for t in trace if t.get('k') == 'decisions']
     if not dec:
@@ -299,7 +304,7 @@ def explicit_schedule(rig, schedule, programs, fail):
             dev.append((int(idx), int(pick)))
 
     def fails(devs):
-        s = 's:' + ','.join(f'{i}={a}' for i, a in devs)
+        s = kind + ','.join(f'{i}={a}' for i, a in devs)
         try:
             judge_sched(rig, s, programs, {'inconclusive': 0})
         except Fail as f2:
@@ -314,7 +319,7 @@ def explicit_schedule(rig, schedule, programs, fail):
             dev = cand
         else:
             i += 1
-    return 's:' + ','.join(f'{i}={a}' for i, a in dev)
+    return kind + ','.join(f'{i}={a}' for i, a in dev)
 
 
 def mutex_expected(threads):
@@ -482,8 +487,9 @@ def run(ctx):
 
         # ---- E2 (ii): sampled programs and schedules
         ctx.clauses_run.append('sampled_schedules')
-        n = 1000 if quick else 100000
-        samples = draw_cases(st.tuples(program, st.one_of(dense, sparse, walk, walk)), n, ctx.seed + 1,
+        n = 3000 if quick else 100000
+        samples = draw_cases(st.tuples(program, st.one_of(dense, sparse, walk, walk, walk_locks,
+                                                          walk_locks)), n, ctx.seed + 1,
                              oversample=1)
         for ri, rig in enumerate(rigs):
             mh = case_hash([rig.case['sm']['model'], rig.case['spec']])
